@@ -59,33 +59,51 @@ unsafe impl GlobalAlloc for Counting {
 #[global_allocator]
 static GLOBAL: Counting = Counting;
 
-/// Milliseconds since process start at which the current server frame began (0 = none running).
-static FRAME_STARTED_MS: std::sync::atomic::AtomicU64 = std::sync::atomic::AtomicU64::new(0);
-/// A server frame takes microseconds; one that has not returned after this long is CPU exhaustion.
-const FRAME_LIMIT_MS: u64 = 20_000;
+/// Sequence number of the server frame that is currently running (0 = none running).
+static FRAME_RUNNING: std::sync::atomic::AtomicU64 = std::sync::atomic::AtomicU64::new(0);
+static FRAME_SEQ: std::sync::atomic::AtomicU64 = std::sync::atomic::AtomicU64::new(0);
+/// A server frame takes microseconds of CPU; one that has burnt this much *CPU time* is CPU exhaustion.
+/// (CPU time of the process, not wall-clock time: on an overloaded machine a worker can be kept off
+/// the CPU for a long time without doing anything wrong.)
+const FRAME_CPU_LIMIT_MS: u64 = 20_000;
+
+/// utime + stime of this process in milliseconds, from /proc/self/stat.
+fn process_cpu_ms() -> Option<u64> {
+    let s = std::fs::read_to_string("/proc/self/stat").ok()?;
+    // the command name (field 2) may contain spaces: fields are counted after the closing parenthesis
+    let rest = &s[s.rfind(')')? + 2..];
+    let f: Vec<&str> = rest.split_whitespace().collect();
+    let (ut, st): (u64, u64) = (f.get(11)?.parse().ok()?, f.get(12)?.parse().ok()?);
+    Some((ut + st) * 10) // clock ticks of 1/100 s
+}
 
 fn start_watchdog() {
-    let t0 = std::time::Instant::now();
     std::thread::spawn(move || {
+        let mut watching: Option<(u64, u64)> = None; // (frame sequence number, CPU ms when first seen)
         loop {
             std::thread::sleep(Duration::from_millis(500));
-            let started = FRAME_STARTED_MS.load(Relaxed);
-            let now = t0.elapsed().as_millis() as u64 + 1;
-            if started != 0 && now.saturating_sub(started) > FRAME_LIMIT_MS {
-                eprintln!("watchdog: a server frame processing a hostile message did not return within {FRAME_LIMIT_MS} ms (CPU exhaustion out of proportion to the message)");
-                std::process::abort();
+            let running = FRAME_RUNNING.load(Relaxed);
+            let Some(cpu) = process_cpu_ms() else { continue };
+            match watching {
+                Some((seq, since)) if running == seq && seq != 0 => {
+                    if cpu.saturating_sub(since) > FRAME_CPU_LIMIT_MS {
+                        eprintln!("watchdog: a server frame processing a hostile message has burnt more than {FRAME_CPU_LIMIT_MS} ms of CPU time without returning (CPU exhaustion out of proportion to the message)");
+                        std::process::abort();
+                    }
+                }
+                _ => watching = if running != 0 { Some((running, cpu)) } else { None },
             }
         }
     });
-    CLOCK.with(|c| *c.borrow_mut() = Some(t0));
 }
 
-thread_local! {
-    static CLOCK: std::cell::RefCell<Option<std::time::Instant>> = const { std::cell::RefCell::new(None) };
+fn frame_begins() {
+    let seq = FRAME_SEQ.fetch_add(1, Relaxed) + 1;
+    FRAME_RUNNING.store(seq, Relaxed);
 }
 
-fn now_ms() -> u64 {
-    CLOCK.with(|c| c.borrow().map(|t| t.elapsed().as_millis() as u64 + 1).unwrap_or(0))
+fn frame_ends() {
+    FRAME_RUNNING.store(0, Relaxed);
 }
 
 // (largest request seen on the unchanged tree while serving: ~230 KB, the per-client table of
@@ -255,9 +273,9 @@ impl World6 {
     fn server_update(&mut self, what: &str) -> bool {
         self.frames += 1;
         self.frames_since_valid_trig += 1;
-        FRAME_STARTED_MS.store(now_ms(), Relaxed);
+        frame_begins();
         let r = catch_unwind(AssertUnwindSafe(|| self.server.update()));
-        FRAME_STARTED_MS.store(0, Relaxed);
+        frame_ends();
         if r.is_err() {
             let p = take_panic().unwrap_or_default();
             let p: String = p.lines().take(2).collect::<Vec<_>>().join(" ").chars().take(300).collect();
@@ -497,9 +515,9 @@ fn lonely_flood(w: &mut World6, r: &mut Rng) {
         }
         w.frames += 1;
         MAX_REQ.store(0, Relaxed);
-        FRAME_STARTED_MS.store(now_ms(), Relaxed);
+        frame_begins();
         let res = catch_unwind(AssertUnwindSafe(|| server.update()));
-        FRAME_STARTED_MS.store(0, Relaxed);
+        frame_ends();
         if res.is_err() {
             w.errs.push(format!("server with only unauthorized connections panicked in frame {f} of a flood: {}", take_panic().unwrap_or_default().lines().next().unwrap_or("")));
             return;
